@@ -61,8 +61,28 @@ Proof. induction n as [|k IH]; [reflexivity|]. cbn [cycles]. rewrite includes_no
 
 (* every line of an included file is present (marked) in the list that is parsed, right behind its include line *)
 Theorem include_inserted f fs l name inc r : include_name l = Some name -> fs name = Some inc ->
-  expand (S f) fs ((l, false) :: r) = (l, false) :: expand f fs (map (fun x => (x, true)) inc ++ r).
+  expand (S f) fs ((l, false) :: r) = (l, false) :: expand f fs (map (fun x => (x, true)) (until_end inc) ++ r).
 Proof. intros A B. cbn [expand]. rewrite A, B. reflexivity. Qed.
+
+(* an END instruction ends an include file: what is spliced in is the part in front of the first END line, and no END line of an
+   include file ever reaches the parser (where it would end the res file) *)
+Theorem until_end_spec inc :
+  Forall (fun l => is_end_line l = false) (until_end inc) /\
+  (until_end inc = inc \/ exists e rest, inc = until_end inc ++ e :: rest /\ is_end_line e = true).
+Proof.
+  induction inc as [|l r [F P]]; cbn [until_end].
+  - split; [constructor | left; reflexivity].
+  - destruct (is_end_line l) eqn:E.
+    + split; [constructor | right; exists l, r; split; [reflexivity | exact E]].
+    + split; [constructor; assumption|]. destruct P as [P | (e & rest & P & Q)].
+      * left. rewrite P. reflexivity.
+      * right. exists e, rest. split; [cbn [app]; rewrite <- P; reflexivity | exact Q].
+Qed.
+
+Example until_end_example :
+  until_end [lit "DFIX 1.4 C1 O1"; lit "ENDS"; lit "end "; lit "C9 1 0 0 0"] = [lit "DFIX 1.4 C1 O1"; lit "ENDS"]
+  /\ is_end_line (lit "END") = true /\ is_end_line (lit "End") = true /\ is_end_line (lit " END") = false /\ is_end_line (lit "EN") = false.
+Proof. vm_compute. repeat split. Qed.
 
 (* ---------- a printed number is printed the same way again ---------- *)
 Local Open Scope Q_scope.
